@@ -296,6 +296,52 @@ def check_paths(run, router, keys, quick, samples, distinct):
                 return evals
     samples.append({"kind": "paths", "key": meta[3][2], "steps": [p for p, w in meta[3][3] if w is not None]})
 
+    # sequences of shard-selecting events on ONE router, with few distinct keys so that repeats are common:
+    # the selection must be the one of the last selecting event (Paths.sel_run)
+    r3 = run.rng
+    nsq = 7
+    SQ = {"shards": nsq, "func": "pg", "parser": True, "splitting": True, "auto_key": "data.id", "key_regex": r"/\* sharding_key: (\d+) \*/"}
+    seq_cases, seq_exprs, seq_meta = [], [], []
+    for t in range(150 if quick else 3000):
+        pool_keys = [abs(r3.choice(sub)) % (2**63) for _ in range(r3.choice([1, 2, 3]))]
+        steps, sel = [], []
+        for i in range(r3.randint(3, 9)):
+            k = r3.choice(pool_keys)
+            c = r3.random()
+            if c < 0.22:
+                steps.append({"op": "command", "sql": "SET SHARDING KEY TO '%d'" % k}); sel.append("SelKey (%d)%%Z" % k)
+            elif c < 0.38:
+                steps.append({"op": "command", "sql": "/* sharding_key: %d */ SELECT 1" % k}); sel.append("SelKey (%d)%%Z" % k)
+            elif c < 0.55:
+                steps.append({"op": "route", "sql": "SELECT * FROM data WHERE id = %d" % k}); sel.append("SelKey (%d)%%Z" % k)
+            elif c < 0.7:
+                steps.append({"op": "route", "proto": "P", "sql": "SELECT * FROM data WHERE id = $1"})
+                steps.append({"op": "bind", "hex": bind_msg([str(k).encode()], [])}); sel.append("SelNone"); sel.append("SelKey (%d)%%Z" % k)
+            elif c < 0.88:
+                v = r3.randint(0, nsq - 1)
+                # the library level has no range check (client.rs does it): only in-range values here
+                steps.append({"op": "command", "sql": "SET SHARD TO '%d'" % v}); sel.append("SelShard %d%%N" % v)
+            else:
+                steps.append({"op": "route", "sql": "SELECT 1"}); sel.append("SelNone")
+        seq_cases.append({"settings": SQ, "steps": steps})
+        seq_exprs.append("sel_run (fun k => partition_of k %d%%N) %d%%N None [%s]" % (nsq, nsq, "; ".join(sel)))
+        seq_meta.append([s.get("sql") or "bind" for s in steps])
+    seq_vals = vlib.coq_eval("c06q", "From PV Require Import Shard.Paths Shard.PgSpec.\nFrom Coq Require Import ZArith NArith List. Import ListNotations.", seq_exprs)
+    seq_res = RL.run_router(router, seq_cases)
+    for meta, v, rr in zip(seq_meta, seq_vals, seq_res):
+        evals += 1
+        distinct.add(("seq", tuple(meta)))
+        run.cov["traces_validated_against_impl"] += 1
+        want = vlib.parse_coq(v)
+        want = want[1] if isinstance(want, tuple) else None
+        o = rr["out"][-1]
+        got = "Panics" if any("panic" in x for x in rr["out"]) else o["state"]["shard"]
+        if got != want:
+            run.violation("counterexample", "after the sequence %s the router's shard is %r, the last selecting event gives %r" % (meta, got, want),
+                          {"correspondence": "Shard/Paths.v sel_run vs QueryRouter", "input": {"steps": meta, "shards": nsq}, "model": want, "impl": got})
+            return evals
+    samples.append({"kind": "selection_sequence", "steps": seq_meta[0], "model": seq_vals[0]})
+
     # multi-parameter Binds: the key at every position among arbitrary other parameters
     r2 = run.rng
     mcases, mexprs, mmeta = [], [], []
